@@ -72,3 +72,26 @@ def script_for_exps(ctx, values, rng, pad=64):
         for w in words:
             out += w.to_bytes(4, "little")
     return hexb(out + rng.randbytes(pad))
+
+
+LABEL_POOL = ["x:", "x:616263", "x:2070616464656420200a", "x:fffe80c328", "x:62616c6c6f740d0a", "x:00", "x:" + "5a" * 65, "x:" + "c3a9" * 70]
+
+
+def label_pool(rng, k):
+    """k-th label of a pool that mixes empty, ASCII, whitespace-padded, non-UTF-8, NUL, 65-byte and 140-byte labels."""
+    return LABEL_POOL[k % len(LABEL_POOL)]
+
+
+def label_variants(lab):
+    """Labels that differ from `lab` (hex 'x:..') but that a sloppy normalisation would identify with it:
+    appended / prepended whitespace and NUL, trimmed, truncated, lossy UTF-8, case-folded, SHA-512 / SHA-256 digests."""
+    import hashlib
+    b = bytes.fromhex(lab[2:])
+    cands = [b + b"\x00", b + b" ", b + b"\n", b" " + b, b + b"\r\n", b"\t" + b, b.strip(), b[:-1], b[1:],
+             b.decode("utf-8", errors="replace").encode("utf-8"), b.lower(), b.upper(),
+             hashlib.sha512(b).digest(), hashlib.sha256(b).digest(), hashlib.sha512(b).hexdigest().encode(), b + b]
+    out = []
+    for c in cands:
+        if c != b and c not in out:
+            out.append(c)
+    return ["x:" + c.hex() for c in out]
